@@ -243,8 +243,9 @@ class TyEnv:
 class TGen:
     def __init__(self, rng: random.Random, *, vars_: int = 0, cvars: int = 0, bvars: list | None = None,
                  bcvars: int = 0, functions: bool = True, linear: bool = True, lists: bool = True,
-                 strs: bool = True, farrays: bool = False):
+                 strs: bool = True, farrays: bool = False, big_consts: bool = False):
         self.r = rng
+        self.big_consts = big_consts
         self.nv, self.ncv = vars_, cvars
         self.bvars = bvars or []  # list of (idx, copy, drop)
         self.nbc = bcvars
@@ -257,6 +258,10 @@ class TGen:
             return ("cvar", r.randrange(self.ncv))
         if self.nbc and c < 0.45:
             return ("bcvar", r.randrange(self.nbc))
+        if self.big_consts and r.random() < 0.3:
+            # every nat is a legal size argument: powers of two around the 32/63/64-bit marks, multi-digit values
+            return ("k", r.choice([7, 10, 255, 2**31, 2**32 - 1, 2**32, 2**63 - 1, 2**63, 2**63 + 1,
+                                   2**64 - 2, 2**64 - 1, r.randint(5, 2**64 - 1), r.randint(5, 10**6)]))
         return ("k", r.randint(0, 4))
 
     def base(self, need_copy=False, need_drop=False):
